@@ -94,7 +94,7 @@ func c03Scenario(name string, signers []string, min uint64, fullGov bool) *Scena
 		mc.AcctSpec{Name: "P1", Coins: Coins(1000, 0)}, mc.AcctSpec{Name: "P2", Coins: Coins(1000, 0)}, mc.AcctSpec{Name: "O", Coins: Coins(1000, 0)},
 	)
 	g.EntSigner, g.MinAccept, g.Limit, g.Whitelist = signers, min, 100, []string{"P1"}
-	s := &Scenario{Name: name, Genesis: g, KeyTimeNs: false, Visit: orderLifecycle}
+	s := &Scenario{Name: name, Genesis: g, KeyTimeNs: false, Visit: orderLifecycle, VisitMidUpgrade: true}
 	s.Actions = []Action{
 		raise("P1", 7, 2), raise("P2", 11, 2), raise("O", 13, 2),
 	}
